@@ -296,6 +296,59 @@ var maxDepthBuilders = map[string]bool{
 	"capnp.NewPointerList": true, "capnp.NewVoidList": true, "capnp.(*Segment).writePtr": true, "capnp.canonicalList": true,
 }
 
+// depthHelperOK: v is the result of a helper that did not exist on the
+// reference tree, every return of which yields a legitimate depth: a depth
+// limit read from an object, 0, or X-1 under a dominating X != 0.
+func depthHelperOK(v ssa.Value) bool {
+	call, ok := v.(*ssa.Call)
+	if !ok {
+		return false
+	}
+	g := call.Call.StaticCallee()
+	if g == nil || !ssaq.IsNew(g) || len(g.Blocks) == 0 {
+		return false
+	}
+	n := 0
+	for _, b := range g.Blocks {
+		ret, isRet := b.Instrs[len(b.Instrs)-1].(*ssa.Return)
+		if !isRet {
+			continue
+		}
+		if len(ret.Results) != 1 {
+			return false
+		}
+		n++
+		rv := ret.Results[0]
+		if isDepthLoad(rv) {
+			continue
+		}
+		if k, isC := ssaq.ConstInt(rv); isC && k == 0 {
+			continue
+		}
+		if phi, isPhi := rv.(*ssa.Phi); isPhi && saturatingDecrement(phi) {
+			continue
+		}
+		bo, isSub := rv.(*ssa.BinOp)
+		if !isSub || bo.Op != token.SUB || !isDepthLoad(bo.X) {
+			return false
+		}
+		if c, isC := ssaq.ConstInt(bo.Y); !isC || c != 1 {
+			return false
+		}
+		xs := ssaq.RenderValue(g, bo.X)
+		proved := false
+		for _, a := range ssaq.DomAtoms(ret) {
+			if a == "0:uint != "+xs || a == "0:uint < "+xs || a == xs+" != 0:uint" {
+				proved = true
+			}
+		}
+		if !proved {
+			return false
+		}
+	}
+	return n > 0
+}
+
 func ruleDepthSites(ctx *Ctx, rule string) {
 	q := ssaq.For(ctx.Prog)
 	r := ctx.Rep
@@ -326,8 +379,21 @@ func ruleDepthSites(ctx *Ctx, rule string) {
 				switch {
 				case isDepthLoad(v):
 					r.Ok(rule, key, pos, "inherited unchanged: "+vs)
+				case depthHelperOK(v):
+					r.Ok(rule, key, pos, "a new helper that returns, on every path, the inherited depth, 0, or X-1 under X != 0: "+vs)
 				case isMaxDepth(v):
-					if maxDepthBuilders[name] {
+					inBuilder := maxDepthBuilders[name]
+					if !inBuilder && ssaq.IsNew(f) {
+						// a helper that did not exist on the reference tree,
+						// reached only from builders
+						if owners, ok := q.Attributed(f); ok {
+							inBuilder = true
+							for _, on := range owners {
+								inBuilder = inBuilder && maxDepthBuilders[on]
+							}
+						}
+					}
+					if inBuilder {
 						r.Ok(rule, key, pos, "maxDepth on a freshly allocated (trusted, acyclic) object")
 					} else {
 						r.Violation(rule, key, pos, "an object gets the maximum depth outside the builder functions: a reader could walk it without a depth bound")
